@@ -15,6 +15,7 @@ func read(s, n int) Op               { return Op{Op: "read", Sub: s, N: n} }
 func parksend(s int) Op              { return Op{Op: "parksend", Sub: s} }
 func parkexit(s int) Op              { return Op{Op: "parkexit", Sub: s} }
 func op(name string) Op              { return Op{Op: name} }
+func drain(s int) Op                 { return Op{Op: "drain", Sub: s} }
 func closeN(n int) Op                { return Op{Op: "close", N: n} }
 func cs(f, n string, ops ...Op) Case { return Case{Family: f, Name: n, Ops: ops} }
 
@@ -70,6 +71,57 @@ func departureCases(cap int) []Case {
 	// a slow reader that keeps up just enough
 	out = append(out, cs("slow", "manual-reader-drains-in-bursts",
 		sub("manual"), sub("prompt"), rounds(-1, cap-5), read(0, 20), rounds(-1, 20), read(0, cap+10), rounds(0, 1), read(0, 2), op("close")))
+	return out
+}
+
+// slowCases: one or more subscribers that stay subscribed but do not read while n values (n around and
+// well beyond the buffer capacity: cap-1 .. several multiples) become due — distinct keys (every value
+// is the last of its key: none may be lost) or keys 0..2 in turn — then resume reading until they have
+// caught up. The fan-out legitimately blocks while a buffer is full (back-pressure); nothing may be
+// dropped: every staying subscriber receives every value the others receive, exactly once, same order.
+// Variants: position of the slow subscriber, two slow subscribers, a reader that resumes in bursts,
+// a Subscribe / a departure of ANOTHER subscriber while the fan-out is blocked, Close afterwards.
+func slowCases(cap int, thorough bool) []Case {
+	var out []Case
+	ns := []int{cap - 1, cap, cap + 1, cap + 2, cap + 3, cap + 10, 2*cap + 1}
+	if thorough {
+		ns = append(ns, 3*cap+7, 6*cap, 10*cap+3)
+	}
+	for _, n := range ns {
+		for _, keys := range []int{-2, -1} {
+			kn := "distinct-keys"
+			if keys == -1 {
+				kn = "three-keys"
+			}
+			if keys == -1 && n > 2*cap+1 {
+				continue
+			}
+			out = append(out, cs("slow-subscriber", fmt.Sprintf("first-%d-%s", n, kn),
+				sub("manual"), sub("prompt"), rounds(keys, n), drain(0), rounds(keys, 2), drain(0), op("close")))
+			out = append(out, cs("slow-subscriber", fmt.Sprintf("last-%d-%s", n, kn),
+				sub("prompt"), sub("manual"), rounds(keys, n), drain(1), rounds(keys, 2), drain(1), op("close")))
+		}
+		out = append(out, cs("slow-subscriber", fmt.Sprintf("only-%d", n),
+			sub("manual"), rounds(-2, n), drain(0), rounds(-2, 1), drain(0)))
+	}
+	for _, n := range []int{cap + 2, cap + 12} {
+		// two slow subscribers around a prompt one; they resume one after the other
+		out = append(out, cs("slow-subscriber", fmt.Sprintf("two-slow-%d", n),
+			sub("manual"), sub("prompt"), sub("manual"), rounds(-2, n), drain(0), drain(2), rounds(-2, 3), drain(2), drain(0), op("close")))
+		out = append(out, cs("slow-subscriber", fmt.Sprintf("two-slow-%d-reverse", n),
+			sub("manual"), sub("manual"), sub("prompt"), rounds(-2, n), drain(1), drain(0), rounds(1, 1), drain(0), drain(1)))
+		// resumes in bursts: a few reads, more values, then catches up
+		out = append(out, cs("slow-subscriber", fmt.Sprintf("bursts-%d", n),
+			sub("manual"), sub("prompt"), rounds(-2, n), read(0, 3), rounds(-2, 5), read(0, cap/2), rounds(-2, cap), drain(0), op("close")))
+		// another subscriber arrives / leaves while the fan-out is blocked on the slow one
+		out = append(out, cs("slow-subscriber", fmt.Sprintf("subscribe-while-blocked-%d", n),
+			sub("manual"), sub("prompt"), rounds(-2, n), sub("prompt"), drain(0), rounds(-2, 2), drain(0), op("close")))
+		out = append(out, cs("slow-subscriber", fmt.Sprintf("other-leaves-while-blocked-%d", n),
+			sub("prompt"), sub("manual"), sub("prompt"), rounds(-2, n), cancel(0), drain(1), rounds(-2, 2), drain(1), op("close")))
+		// a second slow subscriber that leaves with a full buffer while the first stays and catches up
+		out = append(out, cs("slow-subscriber", fmt.Sprintf("other-slow-leaves-%d", n),
+			sub("manual"), sub("manual"), sub("prompt"), rounds(-2, n), cancel(1), drain(0), rounds(-2, 2), drain(0), op("close")))
+	}
 	return out
 }
 
